@@ -28,15 +28,21 @@
      * C07_load_value_current     the tree as it is (numeric check in, `_ => panic!()` pinned by the suite):
                                   load_db_value panics exactly when the type nibble is 0 or 10..15 (known
                                   class panic-db_value-explicit-panic).
-   MISSING for the full statement: the root record decode, the DbVec / graph / multi-map / index loaders and
-   the query layer above the storage (their crash sites were explored by mutation, repaired in /repo, and are
-   re-checked by the mutation run on every check; two classes there are known findings: cyclic sibling-edge
-   lists make searches run forever / grow without bound).  The log position check (flag og_wal_pos) is the
+     * C07_db_load_total_partial  (round 5, last section) the LOAD of the whole database above the storage layer —
+                                  root record decode, DbVec / graph / multi-map / index loaders, the complete read
+                                  of every component — on EVERY record store: a database or an error, or the one
+                                  listed panic site (unknown value type nibble), or one of two write paths the model
+                                  stops at (creation when there is no root record; the legacy conversion).
+   MISSING for the full statement: the two write paths just named and the QUERY layer that reads an opened damaged
+   database lazily (crash sites explored by mutation, repaired in /repo, and re-checked by the mutation run on every
+   check; two classes there are known findings: cyclic sibling-edge lists make searches run forever / grow without
+   bound).  The log position check (flag og_wal_pos) is the
    repair fixes/C07-wal-position.diff; checks/c07.py reads off the source tree whether it is present (then the
    tree corresponds to og_fixed and the two classes alloc-FileStorage.read/FileStorageMemoryMapped.new and
    hang-Storage.read_records are no longer accepted) or not (og_current, for which
    C07_current_log_position_refuted shows the violation). *)
 From Agdb Require Import Bytes Utf8 Codec DbValue ValueIndex ValueIndexProofs OpenFile OpenFileProofs ValueLoadProofs.
+From Agdb Require Import Records StorageSpec DbModel LoadOutcome LoadOutcomeProofs.
 Open Scope N_scope.
 
 Theorem C07_open_total_partial :
@@ -179,3 +185,61 @@ Example C07_nonvacuous :
     realistic ex_intact None.
 Proof. exact intact_opens. Qed.
 Print Assumptions C07_nonvacuous.
+
+(* ------------------------------------------------------------------------------------------------------------------
+   ABOVE THE STORAGE LAYER (round 5): the LOAD of the whole database, DbImpl::new on an ARBITRARY record store.
+   Model: theories/LoadOutcome.v — `load_outcome m root` for a record map m (index -> bytes: what the storage layer hands
+   to the collections once it opened the file) = the outcome of try_new_with_storage (root record incl. the test for
+   the legacy format, DbGraph / DbIndexedMap / DbIndexes / DbKeyValues::from_storage with DbVec::from_storage's checked
+   length, every index's key through load_db_value) followed by the COMPLETE read of every component (VecIterator on
+   every vector, every table's three vectors, every element's DbVec<DbKeyValue>).  Tied to /repo on every run of
+   checks/c07.py: the record store of each damaged input whose storage layer opens -> extracted load_outcome, against
+   DbFile::new on the same bytes (class of the open: opens / error / panic site / allocation).
+
+   FULL STATEMENT for this layer: for every record map and root index the outcome is a database or an error.
+   PROVED:  C07_db_load_total_partial — for EVERY record map (records below 2^60 bytes: any file) and root index the
+   outcome is Loaded / LErr, or
+       LPanic    the `_ => panic!()` of DbValue::load_db_value for a type nibble 0 or 10..15 — the ONE listed crash site
+                 (known class panic-db_value-explicit-panic; the suite pins it).  That it is the only one is
+                 C07_db_load_total_with_type_check: the same model with the check of fixes/C07-value-type.diff
+                 (revision flag vg_type_checked) never panics, and the flag is read at no other place;
+       LFresh    there is no root record: the code CREATES a database in this storage — a write path, not a load;
+       LLegacy   a 40..47 byte root record whose values table loads: legacy::convert_to_current_version starts
+                 rewriting the file — not modelled beyond this point;
+   never LHugeAlloc: no read buffer exceeds 65536 + 1024 x (sum of the record sizes) — indeed none exceeds the largest
+   record.  PARTIAL because of LFresh / LLegacy (two write paths the model stops at; the mutation run covers them with
+   the direct oracle only) and because the queries that read an opened damaged database lazily are not modelled
+   (two known classes live there: cyclic sibling lists). *)
+Theorem C07_db_load_total_partial :
+  forall (m : vmap) (root : N),
+    (forall i b, m_get m i = Some b -> lenN b < two60) ->
+    match load_outcome m root with
+    | Loaded _ | LErr | LFresh | LLegacy | LPanic => True
+    | LHugeAlloc _ => False
+    end.
+Proof. exact load_outcome_total. Qed.
+Print Assumptions C07_db_load_total_partial.
+
+Theorem C07_db_load_total_with_type_check :
+  forall (m : vmap) (root : N),
+    (forall i b, m_get m i = Some b -> lenN b < two60) ->
+    match load_outcome_g vg_fixed (lo_limit m) m root with
+    | Loaded _ | LErr | LFresh | LLegacy => True
+    | LPanic | LHugeAlloc _ => False
+    end.
+Proof. exact load_outcome_fixed_total. Qed.
+Print Assumptions C07_db_load_total_with_type_check.
+
+(* for every revision of the two value-index checks and every limit that admits the records themselves: a panic needs
+   a missing check *)
+Theorem C07_db_load_total_any_revision :
+  forall (g : vguards) (L : N) (m : vmap) (root : N),
+    (forall i b, m_get m i = Some b -> lenN b <= L) ->
+    (forall i b, m_get m i = Some b -> lenN b < two60) ->
+    match load_outcome_g g L m root with
+    | Loaded _ | LErr | LFresh | LLegacy => True
+    | LPanic => vg_num_checked g = false \/ vg_type_checked g = false
+    | LHugeAlloc _ => False
+    end.
+Proof. exact load_outcome_g_total. Qed.
+Print Assumptions C07_db_load_total_any_revision.
